@@ -38,6 +38,8 @@ type c17obs struct {
 	Panics    []string
 	Blocked   []string
 	Reached   bool // the stop point k was reached at all
+	StopStep  int  // length of the scheduler trace at the stop request
+	Trace     []vrt.Step
 }
 
 func c17body(mode string, k int, obs *c17obs) func(x *vrt.Exec) {
@@ -72,12 +74,17 @@ func c17body(mode string, k int, obs *c17obs) func(x *vrt.Exec) {
 			}
 			return fxOutcome{}
 		}
-		vrt.Exploring(false)
 		var err error
 		vrt.Atomic(func() { err = fx.assemble() })
 		if err != nil {
 			panic(err)
 		}
+		if mode == "early" {
+			// shutdown races with Start(): requested after k scheduling steps of the start-up
+			c17early(fx, k, obs, x, &startupDone)
+			return
+		}
+		vrt.Exploring(false)
 		fx.start()
 		ok := vrt.WaitFor("startup", 10*time.Minute, func() bool {
 			return fx.op.TaskQueues.GetMain() != nil && fx.op.TaskQueues.GetMain().IsEmpty() && len(fx.Runs) >= 2 && schedulemanager.ZZJobs(fx.op.ScheduleManager) >= 1 && !hub.Pending() && hub.Busy == 0
@@ -127,6 +134,7 @@ func c17body(mode string, k int, obs *c17obs) func(x *vrt.Exec) {
 			obs.StopSeq = fx.nextSeq()
 			fx.mu.Unlock()
 			obs.StopVT = x.Now()
+			obs.StopStep = len(x.Trace)
 			stopRequested = true
 			op.TaskQueues.WaitStopWithTimeout(WaitQueuesTimeout)
 			obs.ShutdownReturned = true
@@ -137,6 +145,41 @@ func c17body(mode string, k int, obs *c17obs) func(x *vrt.Exec) {
 		// let late ticks / events try to cause executions
 		vrt.WaitFor("after", time.Minute, func() bool { return false })
 	}
+}
+
+// c17early: the shutdown sequence runs in a thread of its own from the very beginning; it is
+// released after k scheduler steps, i.e. possibly in the middle of Start() (queues being created).
+func c17early(fx *fixture, k int, obs *c17obs, x *vrt.Exec, startupDone *bool) {
+	*startupDone = true
+	vrt.Eager(func() {
+		for _, name := range []string{"main", "q2"} {
+			if q := fx.op.TaskQueues.Queues[name]; q != nil && q.Status == "stop" {
+				if _, seen := obs.Stopped[name]; !seen {
+					obs.Stopped[name] = x.Now()
+				}
+			}
+		}
+	})
+	shutdownDone := false
+	vrt.GoNamed("shutdown", func() {
+		obs.Reached = true
+		op := fx.op
+		op.ScheduleManager.Stop()
+		op.KubeEventsManager.PauseHandleEvents()
+		op.TaskQueues.Stop()
+		fx.mu.Lock()
+		obs.StopSeq = fx.nextSeq()
+		fx.mu.Unlock()
+		obs.StopVT = x.Now()
+		obs.StopStep = len(x.Trace)
+		op.TaskQueues.WaitStopWithTimeout(WaitQueuesTimeout)
+		obs.ShutdownReturned = true
+		obs.ShutdownVT = x.Now()
+		shutdownDone = true
+	})
+	fx.start()
+	vrt.WaitFor("end", 20*time.Minute, func() bool { return shutdownDone })
+	vrt.WaitFor("after", time.Minute, func() bool { return false })
 }
 
 func c17check(obs *c17obs) (string, string) {
@@ -154,25 +197,47 @@ func c17check(obs *c17obs) (string, string) {
 		inProgress := false
 		var lastEnd time.Duration = -1
 		beginsAfter := 0
+		prevEndStep := 0
 		for _, e := range fx.Events {
 			if e.Queue != qn {
 				continue
 			}
 			if e.Seq < obs.StopSeq {
 				inProgress = e.Kind == "begin"
+				if e.Kind == "end" {
+					prevEndStep = e.Step
+				}
 				continue
 			}
 			if e.Kind == "begin" {
 				beginsAfter++
+				// "the one it had already picked": a task begun after the stop request must come from a
+				// wait that passed its cancellation check before the request. The worker's scheduler
+				// trace shows whether such a check (a select in its wait for a task) lies between
+				// the end of its previous handler and the stop request.
+				checked := false
+				lo, hi := min(prevEndStep, len(obs.Trace)), min(obs.StopStep, len(obs.Trace))
+				for _, st := range obs.Trace[lo:max(lo, hi)] {
+					if st.T == e.Thread && st.Kind == "select" && strings.Contains(st.Site, "waitForTask") {
+						checked = true
+					}
+				}
+				if !checked && !inProgress {
+					return "C17 task-picked-after-stop", fmt.Sprintf("queue %s executed %s after the stop request although its worker had not passed a cancellation check between its previous handler and the request", qn, e.Desc)
+				}
 				if inProgress {
 					return "C17 task-started-after-stop", fmt.Sprintf("queue %s started %s after the stop request although its handler was running when stop was requested", qn, e.Desc)
 				}
 			} else {
 				lastEnd = e.VT
+				prevEndStep = e.Step
 			}
 		}
 		if beginsAfter > 1 {
 			return "C17 task-started-after-stop", fmt.Sprintf("queue %s started %d tasks after the stop request returned", qn, beginsAfter)
+		}
+		if obs.Mode == "early" && fx.op.TaskQueues.Queues[qn] == nil {
+			continue // shutdown came before this queue was created
 		}
 		st, stopped := obs.Stopped[qn]
 		if !stopped {
@@ -208,7 +273,7 @@ func TestVerifC17(t *testing.T) {
 	maxK := vres.Pick(12, 24)
 	r.Bound("deviation_bound", bound)
 	r.Bound("stop_points_k", maxK+1)
-	modes := []string{"plain", "failing", "inside-handler"}
+	modes := []string{"plain", "failing", "inside-handler", "early"}
 	r.Bound("modes", modes)
 	shard, shards := vres.Shard()
 	var ord int64
@@ -225,10 +290,18 @@ func TestVerifC17(t *testing.T) {
 				obs = &c17obs{}
 				c17body(mode, k, obs)(x)
 			}
-			ex := &vrt.Explorer{Opts: vrt.Options{Bound: bound, MaxSteps: 80000, DelayBound: true}, Deadline: r.Deadline()}
+			ex := &vrt.Explorer{Opts: vrt.Options{Bound: bound, MaxSteps: 80000, DelayBound: true, RecordTrace: true}, Deadline: r.Deadline()}
+			if mode == "early" {
+				if k > 0 {
+					continue // one exploration: the request can pre-empt Start() at every scheduling point
+				}
+				if ex.Opts.Bound < 1 {
+					ex.Opts.Bound = 1
+				}
+			}
 			scen := fmt.Sprintf("%s/k=%d", mode, k)
 			ex.Check = func(x *vrt.Exec) {
-				obs.End, obs.Panics, obs.Blocked = x.End, x.Panics, x.Blocked
+				obs.End, obs.Panics, obs.Blocked, obs.Trace = x.End, x.Panics, x.Blocked, x.Trace
 				key := fmt.Sprintf("%s|%v", scen, x.Choices)
 				r.Eval(1)
 				r.Transition(int64(x.Steps))
